@@ -61,7 +61,7 @@ def run(ctx):
     for proto in ("tcp", "tls", "btcp", "btls", "utls"):
         cmds.append("MUTE " + proto)
         cmds.append("SYN " + proto)
-        cmds.append("DNS %s verif-silent-%d.test" % (proto, ctx.seed))
+        cmds.append("DNS %s verif-silent-%d.test" % (proto, ctx.vseed))
     cmds.append("LNAME tcp localhost")
     if not quick:
         cmds.append("LNAME btcp verif-silent.test")
